@@ -825,7 +825,12 @@ func (l *lexer) scanHeredoc() bool {
 					if r, err = l.read(); err != nil {
 						goto Error
 					}
-					l.esc(r)
+					if r == '"' {
+						// not special in a here-document
+						l.b.WriteString(`\"`)
+					} else {
+						l.esc(r)
+					}
 				case '$':
 					// parameter expansion
 					l.lit()
